@@ -14,7 +14,9 @@ def desc_files(desc):
     for path, content in desc.get("over", {}).items():
         if content is None:
             files.pop(path, None)
-        else:
+        elif path in files:
+            # an edited source only exists as a source while the plan (knob vector) has it as one;
+            # while a step produces that path the override is dormant
             files[path] = content
     return files
 
